@@ -59,6 +59,9 @@ pub const CORPUS: &[&str] = &[
     "---\r\ntitle: é\r\nservings: muchas 😀\r\ntags: {a: é}\r\ntime: soon €\r\nlocale: español 😀\r\nprep time: é\r\ncook time: 😀\r\nauthor: [é]\r\n---\r\npaso @sal{1%g}\r\n",
     "---\r\ntitle: T\r\ntime: 1h\r\ncourse: café\r\nprep time: 5 min\r\ncook time: 10 min 😀\r\nservings: [2, 2]\r\n---\r\nMix @a{1%kg}(é)\r\nand #p\r\n\r\n>> k: v\r\n",
     "= Uno é =\r\n> nota é\r\n> más\r\n\r\nAñade @sal|é{1%g} [- é -] y ~{5%min}. -- é\r\n",
+    // notes on references (diagnosed), same name for an ingredient and a cookware item, stray markers
+    "@a{1} @&a{}(x) #p #&p(big) #a{} @&a{2} #&a ~- wait @+ b #? c\n",
+    "---- Pancakes ----\n@b{1}\n---\nk: v\n---\nlast\n",
 ];
 
 fn edit_symbols(tier: Tier) -> Vec<&'static str> {
